@@ -5,7 +5,7 @@ Executable model of the *stateful skeleton* of a coba environment pipeline
 (`coba/pipes/sources.py SourceFilters.read`, `coba/pipes/filters.py Cache`,
 `coba/environments/filters.py Shuffle / Cache / EmptyCheck / Finalize`,
 `coba/environments/core.py materialize / cache / chunk / save`, `supervised.py`).
-Import-free (core Lean only).
+Imports only the finished models C09 / C05 (the filters that select and order interactions).
 
 * An interaction is an opaque identifier (`Item`); a stateless filter is an arbitrary function
   `f : List Item → List Item` together with an arbitrary *laziness signature*
@@ -21,6 +21,8 @@ Import-free (core Lean only).
 * `Variant.asis` mirrors the code as it is (findings F1–F4), `Variant.fixed` the code with the
   repairs in `fixes/C04-*.diff`.
 -/
+import CobaVerif.Model.C09
+
 namespace Coba.C04
 
 abbrev Item := Nat
@@ -413,5 +415,193 @@ structure WorldGood (D : List Item) (P : List Nat) (w : World) : Prop where
   fixed : w.variant = .fixed
   finIdem : finF w.fin D = D
   objs : ∀ o, some o ∈ w.objs → ObjGood w.fin D P o
+
+/-! # Phase 2 -/
+
+/-! ## Built-in filters as real functions.  An interaction is still an identifier, but it comes
+with the fields the selecting / ordering filters look att (`Attr`); those filters are the functions
+of `Model/C09.lean`; a filter that rewrites every interaction independently is `mapE`. -/
+
+structure Attr where
+  logged : Bool
+  hasCtx : Bool
+  ctx : C09.Ctx
+  nact : Nat
+
+inductive Filt
+  | take (count : Option Nat) (strict : Bool)
+  | slice (start stop : Option Nat) (step : Nat)
+  /-- the repaired `environments.Shuffle(seed)`: `lsd` is `seed*3.21` -/
+  | shuffle (sd lsd : C09.Seed)
+  | riffle (spacing : Nat) (sd : C09.Seed)
+  | sort (keys : List C09.Val)
+  | wher (nInt nAct nFet : C09.Range)
+  /-- Repr / Flatten / Sparsify / Densify(hashing) / Binary / …: a function of the interaction -/
+  | mapE (g : Item → Item)
+
+def Filt.apply (att : Item → Attr) : Filt → List Item → List Item
+  | .take c st, xs => C09.take c st xs
+  | .slice a b st, xs => C09.slice a b st xs
+  | .shuffle sd lsd, xs => C09.eShuffleSeeded (fun i => (att i).logged) sd lsd xs
+  | .riffle sp sd, xs => C09.riffleSeeded sp sd xs
+  | .sort keys, xs =>
+    match C09.sortF (fun i => (att i).hasCtx) (fun i => (att i).ctx) keys xs with
+    | .ok r => r
+    | .error _ => xs          -- the real filter raises: such a pipeline cannot be read att all
+  | .wher ni na nf, xs => C09.whereF (fun i => C09.ctxLen (att i).ctx) (fun i => (att i).nact) ni na nf xs
+  | .mapE g, xs => xs.map g
+
+/-- `islice(items, n)`: never pulls more than `n` items, sees the end only when there are fewer -/
+def prefixDem (n : Nat) (u : List Item) (d : Demand) : Demand :=
+  let cap (k : Nat) : Demand := if n = 0 then .none else if u.length < k then .all else .pull (min k n)
+  match d with
+  | .none => .none
+  | .pull k => if n ≤ k then cap n else .pull k
+  | .all => if u.length < n then .all else cap n
+
+/-- laziness of the built-in filters (how far they drive their upstream) -/
+def Filt.dem : Filt → List Item → Demand → Demand
+  | .take none _, _, d => d
+  | .take (some n) false, u, d => prefixDem n u d
+  | .take (some n) true, u, _ => prefixDem n u .all           -- `list(islice(items,n))` when read() is called
+  | .slice _ none _, _, d => d
+  | .slice _ (some n) _, u, d => prefixDem n u d
+  | .shuffle .., _, d => if d.isNone then .none else .all
+  | .riffle .., _, _ => .all                                   -- `list(interactions)` when read() is called
+  | .sort .., _, d => if d.isNone then .none else .all
+  | .wher .., _, d => d
+  | .mapE _, _, d => d
+
+def Filt.toPure (att : Item → Attr) (f : Filt) (par : List Nat) : PureSt :=
+  { f := f.apply att, dem := f.dem, par := par }
+
+/-- the denotation of a chain of built-in filters, in closed form -/
+def filtDen (att : Item → Attr) : List Item → List (Filt × List Nat) → List Item
+  | u, [] => u
+  | u, (f, _) :: fs => filtDen att (f.apply att u) fs
+
+def filtNodes (att : Item → Attr) (fs : List (Filt × List Nat)) : List Node :=
+  fs.map (fun p => .pure (p.1.toPure att p.2))
+
+/-! ## Noise: `rng = CobaRandom(self._seed)` is created inside `filter`, so a read is a function
+of the interactions it is given.  `step s x` = the noisy interaction and the generator state after
+it.  The variant that keeps the generator in the instance threads the state through the reads. -/
+
+def noiseScan (step : Nat → Item → Nat × Item) : Nat → List Item → Nat × List Item
+  | s, [] => (s, [])
+  | s, x :: xs =>
+    let (s1, y) := step s x
+    let (s2, ys) := noiseScan step s1 xs
+    (s2, y :: ys)
+
+/-- reads of the real filter: each starts from the seed -/
+def noiseFresh (step : Nat → Item → Nat × Item) (seed : Nat) (u : List Item) : List Demand → List (List Item)
+  | [] => []
+  | d :: ds => d.take (noiseScan step seed u).2 :: noiseFresh step seed u ds
+
+/-- reads of a filter that keeps `self._rng`: each starts where the previous one stopped -/
+def noiseKept (step : Nat → Item → Nat × Item) (u : List Item) : Nat → List Demand → List (List Item)
+  | _, [] => []
+  | s, d :: ds =>
+    let seen := d.take u
+    let r := noiseScan step s seen
+    r.2 :: noiseKept step u r.1 ds
+
+/-! ## Collections: `Environments` holding several different environments.  A shortcut applied to
+the collection gives every member its OWN new pipe (`[Pipes.join(env, Cache(25)) for env in …]`);
+the pool then simply holds one object per member.  `cacheAll` is `Environments.cache()` on the
+members `js`. -/
+
+def cacheAll : World → List Nat → World
+  | w, [] => w
+  | w, j :: js => cacheAll (step w (.cache j)).1 js
+
+/-- the variant `self.filter(Cache(25))`: ONE cache object for all members.  `sharedCacheReads st Us ms`:
+full reads of the members `ms` (member `m` has upstream `Us[m]`) through the single cache state. -/
+def sharedCacheReads (sz : Option Nat) : CacheSt → List (List Item) → List Nat → List (List Item)
+  | _, _, [] => []
+  | st, us, m :: ms =>
+    let u := us.getD m []
+    let n := Node.cache sz false st
+    let out := nodeView n u
+    match (nodeStep n u .all).1 with
+    | .cache _ _ st' => out :: sharedCacheReads sz st' us ms
+    | _ => out :: sharedCacheReads sz st us ms
+
+/-! ## Caller-owned objects: constructor arguments (X, Y, row lists, reward feature lists, params
+dicts, learners, …) live in heap cells of their own.  A step of the model never writes them.
+`argEdit` describes a (hypothetical) source whose read rewrites the cell it was given. -/
+
+structure HWorld where
+  w : World
+  caller : List (List Nat)
+  /-- object index ↦ (cell it was constructed from, what a started read makes of that cell) -/
+  argEdit : Nat → Option (Nat × (List Nat → List Nat))
+
+def startsRead : Op → Bool
+  | .full _ | .materialize _ | .save _ => true
+  | .part _ k => k != 0
+  | _ => false
+
+def hstep (h : HWorld) (op : Op) : HWorld × Out :=
+  let (w', out) := step h.w op
+  let caller' :=
+    match (if startsRead op && (getObj h.w op.on).isSome then h.argEdit op.on else none) with
+    | some (cell, e) => h.caller.modify cell e
+    | none => h.caller
+  ({ h with w := w', caller := caller' }, out)
+
+def hrunW : HWorld → List Op → HWorld
+  | h, [] => h
+  | h, op :: ops => hrunW (hstep h op).1 ops
+
+def hrun : HWorld → List Op → List Out
+  | _, [] => []
+  | h, op :: ops => (hstep h op).2 :: hrun (hstep h op).1 ops
+
+/-! ## Per-instance memoisation: `GroundedFeedback.__call__` is `lru_cache`d.  An instance draws a
+word from its own generator (seeded with its seed, created on the first miss) every time it is
+evaluated on an argument that is not in the memo; the memo is ONE table for all instances, keyed by
+(instance, argument), least recently used entry evicted first when it has a capacity.
+`draw inst k good` = the word the instance's k-th draw gives (from the good or the bad words). -/
+
+structure Memo where
+  /-- most recently used first -/
+  entries : List ((Nat × Nat) × Nat)
+  /-- draws made so far, per instance -/
+  pos : List (Nat × Nat)
+
+def Memo.posOf (m : Memo) (inst : Nat) : Nat := (m.pos.lookup inst).getD 0
+
+def Memo.call (cap : Option Nat) (draw : Nat → Nat → Nat → Nat) (m : Memo) (inst arg : Nat) : Memo × Nat :=
+  match m.entries.lookup (inst, arg) with
+  | some v => ({ m with entries := ((inst, arg), v) :: m.entries.filter (fun e => e.1 != (inst, arg)) }, v)
+  | none =>
+    let k := m.posOf inst
+    let v := draw inst k arg
+    let es := ((inst, arg), v) :: m.entries
+    let es := match cap with | some c => es.take c | none => es
+    ({ entries := es, pos := (inst, k + 1) :: m.pos.filter (fun p => p.1 != inst) }, v)
+
+/-- evaluate the feedbacks of a read: every (instance, argument) pair in order -/
+def Memo.read (cap : Option Nat) (draw : Nat → Nat → Nat → Nat) : Memo → List (Nat × Nat) → Memo × List Nat
+  | m, [] => (m, [])
+  | m, (i, a) :: qs =>
+    let (m1, v) := m.call cap draw i a
+    let (m2, vs) := Memo.read cap draw m1 qs
+    (m2, v :: vs)
+
+def Memo.reads (cap : Option Nat) (draw : Nat → Nat → Nat → Nat) : Memo → List (List (Nat × Nat)) → List (List Nat)
+  | _, [] => []
+  | m, q :: qs => let (m1, vs) := Memo.read cap draw m q; vs :: Memo.reads cap draw m1 qs
+
+/-- the memo after a list of reads -/
+def Memo.after (cap : Option Nat) (draw : Nat → Nat → Nat → Nat) : Memo → List (List (Nat × Nat)) → Memo
+  | m, [] => m
+  | m, q :: qs => Memo.after cap draw (Memo.read cap draw m q).1 qs
+
+/-- what the property needs: the value of (instance, argument) is fixed by the FIRST read -/
+def memoOK (draw : Nat → Nat → Nat → Nat) (m : Memo) : Prop :=
+  ∀ i a v, m.entries.lookup (i, a) = some v → ∃ k, k < m.posOf i ∧ v = draw i k a
 
 end Coba.C04
